@@ -979,7 +979,10 @@ def run_independence(case):
     # the same state: every (round, client position) pair must have been
     # quantized with its own randomness -- also position j+1 of one round versus
     # position j of the next.
-    for j in range(n):
+    # (a cohort beyond any fixed chunk of keys: a few slots a chunk apart)
+    slots = range(n) if n <= 8 else sorted({j % n for j in (
+        case['a'] % 7, case['a'] % 7 + 1, case['a'] % 7 + 64, case['a'] % 7 + 128, n - 1)})
+    for j in slots:
       w_j = [1.0 if i == j else 0.0 for i in range(n)]
       (o_j,), st_j = apply_once(agg, template, [tree] * n, w_j, state)
       require(bool(np.isfinite(o_j).all()), f'{kind}:nonfinite', f'{where} one-hot {j}')
@@ -1356,10 +1359,14 @@ def independence_case(draw, tier):
     levels = draw(st.sampled_from([2, 3, 4, 16, 64]))
   elif kind == 'arith':
     levels = draw(st.sampled_from([2, 3, 4]))
-  return {'agg': kind, 'levels': levels, 'seed': draw(SEEDS),
+  case = {'agg': kind, 'levels': levels, 'seed': draw(SEEDS),
           'a': draw(st.integers(-64, 64)), 'e': draw(st.integers(-20, 20)),
           'n': draw(st.sampled_from([2, 2, 3])),
           'rounds': draw(st.sampled_from([2, 2, 3] if tier == 'quick' else [2, 3, 4]))}
+  if kind != 'arith' and draw(st.integers(0, 5)) == 0:
+    # one round over a cohort of 150 clients (slots 64 and 128 apart compared)
+    case.update({'n': 150, 'rounds': 1})
+  return case
 
 
 def independence_labels(case):
